@@ -357,6 +357,9 @@ class BPTC19696:
             is_reserved,
             is_hamming,
         ) in BPTC19696.INTERLEAVING_INDICES.items():
+            if row < 1:
+                # R(3) is not part of the 13x15 matrix, keep it as received
+                continue
             bits[data_index if deinterleaved else interleave_index] = table[row - 1][
                 column
             ]
